@@ -13,6 +13,7 @@ package main
 
 import (
 	"encoding/json"
+	"flag"
 	"fmt"
 	"os"
 	"os/exec"
@@ -34,7 +35,12 @@ type staticItem struct {
 }
 
 func main() {
+	isWorker := flag.Bool("worker", false, "internal: run API cases read from stdin")
 	o := hx.ParseFlags()
+	if *isWorker {
+		workerMain()
+		return
+	}
 	rep := hx.NewReport("C02", o.Seed, o.Tier)
 	rep.Rule = "static pass: every program the parser accepts (awkgen exec/IO mode, hostile-literal variants, all template/probe programs) is decoded, re-encoded and verified by the extracted Coq verifier — distinct = distinct program text, non-trivial = more than 8 opcode words; one-byte RS model vs implementation for all 256 bytes. dynamic: each case is one complete run (program, input, configuration) under recover() or in a goawk child process"
 	r := hx.NewRand(o.Seed)
@@ -181,28 +187,37 @@ func main() {
 	}
 
 	// ---- 5. recursion depth: exactly at the limit is fine, one more is an error, never a crash ----
+	// Depths up to a few thousand run in-process (harmless for the Go stack even if the limit were
+	// missing); unbounded recursion runs in a child process, where losing the limit shows up as a
+	// Go "stack overflow" fatal error of the child instead of killing this harness.
 	for shape := 0; shape < 5; shape++ {
 		for _, d := range []struct {
 			depth  string
 			expect string
-		}{{"10", "ok"}, {"998", "ok"}, {"999", "ok"}, {"1000", "error"}, {"1001", "error"}, {"5000", "error"}, {"1e6", "error"}, {"1e30", "error"}} {
-			exp := d.expect
-			if shape == 4 && exp == "ok" && d.depth != "10" {
-				// f(n) calls f(n-1) and f(0): same maximal depth
-			}
+		}{{"10", "ok"}, {"998", "ok"}, {"999", "ok"}, {"1000", "error"}, {"1001", "error"}, {"3000", "error"}, {"1e6", "error"}} {
 			c := api("recursion", recursionProgram(shape, d.depth), "x\n")
-			c.Expect, c.ExpectWhy = exp, "calls nested deeper than maxCallDepth=1000 are a run-time error, shallower ones run"
+			c.Expect, c.ExpectWhy = d.expect, "calls nested deeper than maxCallDepth=1000 are a run-time error, shallower ones run"
 			addCase(c)
 		}
+		for _, depth := range []string{"1e6", "1e30"} {
+			c := cli("recursion-cli", "x\n", recursionProgram(shape, depth))
+			c.Expect, c.ExpectWhy = "error", "runaway recursion is reported as an error (exit status 1), not a crash"
+			if thorough || shape%2 == 0 {
+				addCase(c)
+			}
+		}
 	}
-	for _, src := range []string{
+	for i, src := range []string{
 		`function f() { f() } BEGIN { f() }`,
 		`function f(a) { return f(a) } { f($0) }`,
 		`function f(A) { A[1]; for (k in A) f(A) } BEGIN { f(X) }`,
 		`function f() { return g() } function g() { return f() } END { f() }`,
 	} {
-		c := api("recursion", src, "x\n")
-		c.Expect, c.ExpectWhy = "error", "runaway recursion is reported as an error"
+		if !thorough && i%2 == 1 {
+			continue
+		}
+		c := cli("recursion-cli", "x\n", src)
+		c.Expect, c.ExpectWhy = "error", "runaway recursion is reported as an error (exit status 1), not a crash"
 		addCase(c)
 	}
 
@@ -300,25 +315,12 @@ func main() {
 			<-sem
 		}(i, c)
 	}
-	spent := map[string]time.Duration{}
-	for i, c := range cases {
-		if c.Kind == "cli" {
-			continue
-		}
-		t0 := time.Now()
-		outs[i] = runAPI(c)
-		spent[c.Family] += time.Since(t0)
-	}
+	runAll(cases, outs, func(f string, a ...any) { rep.HarnessError(f, a...) })
 	wg.Wait()
 	for i, c := range cases {
 		rep.SearchEvals++
 		rep.Count("run:" + c.Family)
 		judge(rep, c, outs[i])
-	}
-	if os.Getenv("C02_DEBUG") != "" {
-		for k, v := range spent {
-			fmt.Fprintf(os.Stderr, "TIME %-28s %v\n", k, v)
-		}
 	}
 	rep.Write(o.Out)
 }
@@ -347,15 +349,19 @@ func judge(rep *hx.Report, c *Case, out Outcome) {
 		}
 		return
 	}
+	failed := out.Err != ""
+	if c.Kind == "cli" {
+		failed = out.Status != 0
+	}
 	switch c.Expect {
 	case "error":
-		if out.Err == "" {
+		if !failed {
 			rep.Fail(hx.Failure{Class: "expected-error:" + c.Family, Oracle: c.ExpectWhy, Detail: c.Detail(out)})
 		} else {
 			rep.Count("error-as-required:" + c.Family)
 		}
 	case "ok":
-		if out.Err != "" {
+		if failed {
 			rep.Fail(hx.Failure{Class: "expected-ok:" + c.Family, Oracle: c.ExpectWhy, Detail: c.Detail(out)})
 		}
 	default:
@@ -519,7 +525,14 @@ func replay(path string) int {
 	if c.Kind == "cli" {
 		buildCLI(hx.NewReport("C02", 0, "replay"))
 	}
-	out := run(c)
+	var out Outcome
+	if c.Kind == "cli" {
+		out = runCLI(c)
+	} else {
+		outs := make([]Outcome, 1)
+		runAll([]*Case{c}, outs, func(f string, a ...any) { fmt.Printf("replay: "+f+"\n", a...) })
+		out = outs[0]
+	}
 	fmt.Printf("class:    %s\noracle:   %s\nprogram:  %q\ninput:    %q\n", doc.Failure.Class, doc.Failure.Oracle, unhx(c.SrcHex), unhx(c.InputHex))
 	if c.Kind == "cli" {
 		fmt.Printf("argv:     %q\n", unhxs(c.ArgsHex))
